@@ -749,7 +749,8 @@ impl<const P: u8, const G: i8, const N: usize, const D: usize> Dut for NbDut<P, 
             }
             None if self.env.borrow().cfg.restore_into_used => {
                 // the device the stored session is installed into has a past of its own
-                let variant = self.env.borrow().op_idx % 4;
+                // (odd operation indices take the settings-before-session path above)
+                let variant = (self.env.borrow().op_idx / 2) % 4;
                 let (refs, pending, n_down, n_up) = {
                     let mut e = self.env.borrow_mut();
                     e.txn = Txn::default();
